@@ -36,6 +36,8 @@ pub struct Driver {
     pub hist_id: String,
     /// a violation outside the recorded classes happened: the history stops
     pub fatal: bool,
+    /// length of the history log when a dump last showed stale ancestors_*/descendants_*
+    pub aggs_bad_at: Option<usize>,
     reported: HashSet<String>,
 }
 
@@ -46,7 +48,7 @@ fn ids_json(w: &World, ids: &[ProposalShortId]) -> Value {
 impl Driver {
     pub fn new(cfg: WorldCfg, mode_c12: bool, hist_id: String) -> Driver {
         let w = World::new(cfg);
-        Driver { w, obs: Obs::default(), mode_c12, last_dump: None, f3_seen: false, f10_seen: false, hist_id, fatal: false, reported: HashSet::new() }
+        Driver { w, obs: Obs::default(), mode_c12, last_dump: None, f3_seen: false, f10_seen: false, hist_id, fatal: false, aggs_bad_at: None, reported: HashSet::new() }
     }
 
     fn violation(&mut self, what: &str, detail: Value, signature: Option<&str>) {
@@ -194,7 +196,8 @@ impl Driver {
     /// a C13 failure while the pool's ancestors_* are stale is the consequence of C11's recorded defects
     fn known_c11_signature(&self) -> Option<&'static str> {
         let (d, _) = self.w.node.pool().verif_dump();
-        if crate::pred::aggregates_consistent(&d) {
+        let recently_bad = self.aggs_bad_at.map(|s| s + 6 >= self.w.jops.len()).unwrap_or(false);
+        if crate::pred::aggregates_consistent(&d) && !recently_bad {
             None
         } else if self.f3_seen {
             Some("add_entry of a tx that already has pooled children")
@@ -297,6 +300,9 @@ impl Driver {
                 self.violation(&what, detail, sig);
             }
         }
+        if !crate::pred::aggregates_consistent(&dump) {
+            self.aggs_bad_at = Some(self.w.jops.len());
+        }
         self.last_dump = Some(dump);
         self.w.racing_since_sync = 0;
     }
@@ -331,6 +337,9 @@ impl Driver {
 
     pub fn refresh_dump(&mut self) {
         let (d, _) = self.w.node.pool().verif_dump();
+        if !crate::pred::aggregates_consistent(&d) {
+            self.aggs_bad_at = Some(self.w.jops.len());
+        }
         self.last_dump = Some(d);
     }
 
